@@ -237,7 +237,34 @@ func (c *collection) createIndex(
 		return nil, err
 	}
 
+	// The index is part of this collection handle from here on, so that the rest of the
+	// transaction works with it. If the transaction does not commit, the handle forgets it again.
+	c.onTxnNotCommitted(ctx, func() { c.forgetIndex(desc.Name) })
+
 	return index, nil
+}
+
+// onTxnNotCommitted registers fn to run when the context's transaction ends without having been
+// committed successfully (it is discarded, or its commit fails).
+func (c *collection) onTxnNotCommitted(ctx context.Context, fn func()) {
+	txn := datastore.CtxMustGetTxn(ctx)
+	committed := false
+	txn.OnSuccess(func() { committed = true })
+	txn.OnDiscard(func() {
+		if !committed {
+			fn()
+		}
+	})
+}
+
+// forgetIndex removes the index with the given name from this collection handle only.
+func (c *collection) forgetIndex(indexName string) {
+	c.indexes = slices.DeleteFunc(c.indexes, func(index CollectionIndex) bool {
+		return index.Name() == indexName
+	})
+	c.def.Version.Indexes = slices.DeleteFunc(c.def.Version.Indexes, func(index client.IndexDescription) bool {
+		return index.Name == indexName
+	})
 }
 
 func (c *collection) addNewIndex(ctx context.Context, desc client.IndexDescription) (CollectionIndex, error) {
@@ -363,6 +390,20 @@ func (c *collection) dropIndex(ctx context.Context, indexName string) error {
 			if err != nil {
 				return err
 			}
+			// If the transaction does not commit, the index is still there: the handle keeps it.
+			droppedIndex, droppedDesc := c.indexes[i], c.indexes[i].Description()
+			c.onTxnNotCommitted(ctx, func() {
+				if !slices.ContainsFunc(c.indexes, func(index CollectionIndex) bool {
+					return index.Name() == indexName
+				}) {
+					c.indexes = append(c.indexes, droppedIndex)
+				}
+				if !slices.ContainsFunc(c.def.Version.Indexes, func(index client.IndexDescription) bool {
+					return index.Name == indexName
+				}) {
+					c.def.Version.Indexes = append(c.def.Version.Indexes, droppedDesc)
+				}
+			})
 			c.indexes = slices.Delete(c.indexes, i, i+1)
 			didFind = true
 			break
